@@ -658,7 +658,12 @@ class Grid:
         )
 
         # if any dims are chunked then we need dask
-        if isinstance(data_unpacked.data, Dask_Array):
+        # (the halo of a vector component may come from the other component: either of them can be the lazy one)
+        partner_components = other_component.values() if other_component else []
+        if any(
+            isinstance(a.data, Dask_Array)
+            for a in [data_unpacked, *partner_components]
+        ):
             dask = "parallelized"
         else:
             dask = "forbidden"
